@@ -356,6 +356,9 @@ func firstDiff(a, b []byte) int {
 }
 
 func c06Run(c *fw.Ctx) {
+	{
+		interfRun(c, "C06") // statement-level interleavings of operations on disjoint objects (subprocess)
+	}
 	idx := 0
 	do := func(cas c06Case, ref bool) {
 		idx++
